@@ -64,6 +64,7 @@ func Explore(p Program, res *core.Result, shard, shards int) core.Sub {
 	root := true
 
 	runCheck := func(prefix []int) (*Execution, string, *core.Violation) {
+		NewEpoch()
 		bodies, names, final := p.Setup()
 		x := RunOnce(bodies, names, prefix, maxSteps)
 		if x.Fault != "" {
@@ -211,6 +212,7 @@ func Explore(p Program, res *core.Result, shard, shards int) core.Sub {
 // ReplayChoices re-executes one schedule.
 func ReplayChoices(p Program, choices []int) (*Execution, string, *core.Violation) {
 	SetMode(Scheduled)
+	NewEpoch()
 	bodies, names, final := p.Setup()
 	x := RunOnce(bodies, names, choices, 0)
 	if len(x.Panics) > 0 {
